@@ -902,6 +902,21 @@ func (w *Walker) step(fr *frame, in ssa.Instruction) {
 	case *ssa.Defer:
 		args := w.callArgs(fr, &x.Call)
 		name, clos := w.calleeOf(fr, &x.Call)
+		if clos != nil && clos.Fn != nil && strings.HasSuffix(name, "$bound") {
+			// a bound method value (m.Unlock): the call of the method on the bound receiver
+			name = strings.TrimSuffix(name, "$bound")
+			if len(clos.Fn.Blocks) == 1 {
+				for _, in2 := range clos.Fn.Blocks[0].Instrs {
+					if inner, ok := in2.(*ssa.Call); ok {
+						if f := inner.Call.StaticCallee(); f != nil {
+							name = calleeName(f)
+						}
+					}
+				}
+			}
+			args = append(append([]*Term{}, clos.Args...), args...)
+			clos = nil
+		}
 		w.event(Event{Kind: "defer", Name: name, Args: args, Result: clos, Pos: x.Pos(), Instr: x, Fn: fn, Depth: depth})
 		w.defers[len(w.defers)-1] = append(w.defers[len(w.defers)-1], deferred{name: name, args: args, call: &x.Call, pos: x.Pos(), inst: x, clos: clos, fn: fn})
 	case *ssa.RunDefers:
@@ -1242,6 +1257,21 @@ func (w *Walker) call(fr *frame, c *ssa.CallCommon, in ssa.Instruction, rt types
 	fn, depth := fr.fn, fr.depth
 	args := w.callArgs(fr, c)
 	name, clos := w.calleeOf(fr, c)
+	if clos != nil && clos.Fn != nil && strings.HasSuffix(name, "$bound") && len(clos.Fn.Blocks) == 1 {
+		// calling a bound method value is calling the method on the bound receiver
+		for _, in2 := range clos.Fn.Blocks[0].Instrs {
+			if inner, ok := in2.(*ssa.Call); ok {
+				if f := inner.Call.StaticCallee(); f != nil {
+					t := &Term{Op: "call", Name: calleeName(f), Args: append(append([]*Term{}, clos.Args...), args...), Typ: rt, Pos: in.Pos()}
+					if !isPureName(t.Name) {
+						t.ID = w.fresh("call:" + t.Name)
+					}
+					w.event(Event{Kind: "call", Name: t.Name, Args: t.Args, Result: t, Pos: in.Pos(), Instr: in, Fn: fn, Depth: depth})
+					return t
+				}
+			}
+		}
+	}
 
 	if strings.HasPrefix(name, "builtin:") {
 		return w.builtin(strings.TrimPrefix(name, "builtin:"), args, in, rt, fn, depth)
